@@ -13,6 +13,27 @@ def sh(cmd, **kw):
     return subprocess.run(cmd, shell=True, text=True, capture_output=True, **kw)
 
 def main():
+    # --scratch: apply the patch to a scratch worktree of /repo and check that (XSIM_REPO / XSIM_SCRATCH) instead of
+    # patching /repo's working tree; for running while other checks use /repo
+    scratch = "--scratch" in sys.argv
+    if scratch:
+        sys.argv.remove("--scratch")
+        global REPO
+        src, REPO = REPO, "/tmp/xs_seed_wt_%d" % os.getpid()
+        sh("git -C %s worktree add --detach %s HEAD" % (src, REPO))
+        os.environ["XSIM_REPO"] = REPO
+        os.environ["XSIM_SCRATCH"] = "/tmp/xs_seed_out_%d" % os.getpid()
+        try:
+            run()
+        finally:
+            sh("git -C %s worktree remove --force %s" % (src, REPO))
+            sh("rm -rf " + os.environ["XSIM_SCRATCH"])
+        return
+    run()
+
+
+def run():
+    scratch = "XSIM_SCRATCH" in os.environ
     sid = sys.argv[1]
     d = os.path.join(ROOT, "seeded", sid)
     meta_p = os.path.join(d, "meta.json")
@@ -45,7 +66,7 @@ def main():
                                                  time.time() - t0, ",".join(classes)), flush=True)
             if viol:
                 # keep one replay file next to the patch as the witness
-                src = os.path.join(ROOT, viol[0][1]) if not os.path.isabs(viol[0][1]) else viol[0][1]
+                src = os.path.normpath(os.path.join(ROOT, viol[0][1])) if not os.path.isabs(viol[0][1]) else viol[0][1]
                 if os.path.exists(src):
                     dst = os.path.join(d, "witness-%s.json" % p)
                     open(dst, "w").write(open(src).read())
@@ -53,7 +74,8 @@ def main():
     finally:
         sh("git -C %s checkout -- ." % REPO)
         # evidence and replay files written by these runs describe the patched tree: drop them
-        sh("git checkout -- evidence replays; git clean -fdq replays", cwd=ROOT)
+        if not scratch:
+            sh("git checkout -- evidence replays; git clean -fdq replays", cwd=ROOT)
     json.dump(meta, open(meta_p, "w"), indent=1, sort_keys=True)
     open(meta_p, "a").write("\n")
 
